@@ -11,7 +11,7 @@ META = {
                    "(RX2); print/parse tables (RT-P); resolution of ':name' against the listing COND file's directory (REL1); "
                    "__eq__/__hash__ agreement (HASH1); combine() rejects dependencies whose names coincide, because its entries are "
                    "named by task name alone (CB3). cond gc parses output-directory names with exactly the grammar they are created with (RX1 on gc's patterns, GC1/GC2). cond restore refuses a destination directory that already exists, so an archived version never shares a directory with a local one (RS2).",
-    "rules": ["RX1", "RX2", "RT-P", "REL1", "HASH1", "CB3", "GC1", "GC2", "RX1(gc)", "RS2"],
+    "rules": ["RX1", "RX2", "RT-P", "REL1", "HASH1", "CB3", "GC1", "GC2", "RX1(gc)", "RS2", "CLI-ID"],
     "assumptions": ["re._parser's AST is the engine's semantics (cross-checked on the witnesses in the engine self-check)"],
     "trusted": ["ast parser", "re._parser", "constant folder"],
     "technique": "static analysis: regex AST → symbolic-alphabet DFA language equivalence, plus AST agreement rules",
@@ -213,3 +213,47 @@ def run(A, rep, tier):
     # restore must not merge an archived version into a directory that already exists (a different version's files)
     from . import archive_restore as AR
     AR.rule_rs2(A, rep)
+    rule_cli_id(A, rep)
+
+
+def rule_cli_id(A, rep):
+    """Every command that takes a task identifier hands the string to `TaskIdentifier.from_str` — the one grammar — unless
+    the argument is absent, and "absent" means `is None` (argparse's value for a missing optional positional), never
+    falsiness: the empty string is not a valid identifier and must be rejected like any other invalid string."""
+    raw = []            # (function, text of the expression holding the raw string)
+    for f in A.prog.scan_functions:
+        if not f.fq.startswith("conductor.cli."):
+            continue
+        if any(isinstance(x, ast.Attribute) and norm(x) == "args.task_identifier" for x in walk_local(f.node)):
+            raw.append((f, "args.task_identifier"))
+    # one step through calls: a parameter that receives the raw string
+    for (f, txt) in list(raw):
+        for c in walk_local(f.node):
+            if isinstance(c, ast.Call) and any(norm(a) == txt for a in list(c.args) + [k.value for k in c.keywords]):
+                for cal in A.res.callees(c):
+                    g_ = A.prog.functions.get(cal)
+                    if g_ is None or g_.fq.startswith("conductor.task_identifier."):
+                        continue        # the parser itself is where the string is taken apart
+                    for p_, a in A.bind_args(c, g_).items():
+                        if norm(a) == txt:
+                            raw.append((g_, p_))
+    n_tests = n_parse = 0
+    for (f, txt) in raw:
+        g = A.cfg(f, "plain")
+        for n in g.nodes:
+            if n.kind == "test" and n.ast is not None and any(norm(x) == txt for x in ast.walk(n.ast)):
+                for pol in (True,):
+                    for conj in A.dnf(n.ast, pol, f, inline=False):
+                        for a, _p in conj:
+                            if a in ("none(%s)" % txt, "t(%s)" % txt, "empty(%s)" % txt) or a.startswith(("eq(%s," % txt, "in(%s," % txt)) or a.endswith(",%s)" % txt):
+                                n_tests += 1
+                                rep.check(a == "none(%s)" % txt, "CLI-ID", "absent identifier = None (%s in %s)" % (txt, f.fq.replace("conductor.", "")), n.ast,
+                                          "", "`%s` is tested as `%s`: the empty string (and nothing else the grammar rejects) is treated as "
+                                          "\"no identifier given\" instead of being rejected" % (txt, a))
+        for c in A.calls_in(f.node, "TaskIdentifier.from_str"):
+            if c.args and norm(c.args[0]) == txt:
+                n_parse += 1
+                rep.ok("CLI-ID", "%s parsed by from_str in %s" % (txt, f.fq.replace("conductor.", "")), c, "", deep=False)
+    if n_parse < 3 or n_tests < 1:
+        raise AnalysisError("CLI-ID: anchors not found (%d from_str sites on the raw argument, %d tests)" % (n_parse, n_tests))
+
